@@ -683,6 +683,7 @@ func runC09(c *Ctx) {
 	c09Topo(c)
 	c09Exprs(c) // ---- 2b. value expressions: FormatExp / ParseValExp (c09exp.go)
 	c09Calls(c) // ---- 2c. call statements: CallStm.format / call_stm (c09call.go)
+	c09Call2(c) // ---- 2d. full call statements, return, retain, pipeline bodies (c09call2.go)
 
 	// ---- 3. formatter monitors ----
 	progSeeds, _ := c08LoadSeeds(c)
